@@ -37,7 +37,7 @@ def main():
             results[d.name] = {'superseded_by': meta['superseded_by']}
             continue
         props = a.props.split(',') if a.props else [meta['property']] + meta.get('also_run', [])
-        wt = pathlib.Path('/tmp') / ('seedwt_' + d.name)
+        wt = pathlib.Path('/tmp') / ('seedwt_%s_%d' % (d.name, os.getpid()))
         sh(['git', '-C', '/repo', 'worktree', 'remove', '--force', str(wt)])
         r = sh(['git', '-C', '/repo', 'worktree', 'add', '--detach', str(wt), 'HEAD'])
         try:
